@@ -31,8 +31,10 @@ def install_schedule_control() -> None:
     uuid.uuid4 = _seeded_uuid4  # type: ignore[assignment]
 
 
-class CaseTimeout(Exception):
-    pass
+class CaseTimeout(BaseException):
+    """Wall-clock watchdog (inconclusive, never a verdict).  BaseException so that the
+    `except Exception` blocks around the code under test cannot mistake it for a failure of
+    that code."""
 
 
 def _alarm(_sig, _frm):  # noqa: ANN001
